@@ -181,7 +181,8 @@ class SText:
     def __hash__(self):
         h = self.single_hole()
         if h is not None:
-            return hash(id(h))
+            # one bucket for all raw holes: membership / set / dict keys must go through __eq__, which asks the solver
+            return 0x5e7 if h.kind == 'raw' else hash(id(h))
         raise core.Unsupported("hash of composite symbolic text")
 
     # ---- str API
@@ -527,3 +528,24 @@ class SFile:
 
     def read(self, n=-1):
         raise core.Unsupported("read() on symbolic stream")
+
+
+def raw(name, domain=None, maxlen=6):
+    """a symbolic text atom: SText with one raw hole (symbolic mode) / the model's string (concrete replay)"""
+    t = core.CTX.strvar(name, domain, maxlen)
+    if isinstance(t, str):
+        return t
+    return SText([Hole('raw', None, t)])
+
+
+def regex_excluding(chars, nonempty=True, no_outer_blank=True, not_starting=''):
+    """domain: strings over printable ASCII without `chars`; optionally non-empty, without leading/trailing blank,
+    not starting with any of `not_starting`"""
+    allowed = [chr(c) for c in range(32, 127) if chr(c) not in chars]
+    inner = _cls(allowed)
+    edge_chars = [c for c in allowed if not (no_outer_blank and c == ' ')]
+    first = _cls([c for c in edge_chars if c not in not_starting])
+    last = _cls(edge_chars)
+    one = first if not no_outer_blank else _cls([c for c in edge_chars if c not in not_starting])
+    body = z3.Union(one, z3.Concat(first, z3.Star(inner), last))
+    return body if nonempty else z3.Union(z3.Re(z3.StringVal('')), body)
